@@ -30,7 +30,7 @@ import (
 
 // Op of one goroutine's program.
 type Op struct {
-	K     string `json:"k"` // ticket | login | affirm | cached | destroy | getkdcs | resolve | diag | print
+	K     string `json:"k"` // ticket | login | affirm | cached | destroy | getkdcs | getkpasswd | resolve | diag | print
 	SPN   int    `json:"spn,omitempty"`
 	Ms    int    `json:"ms,omitempty"`       // hammer / logins: how long to keep going
 	Pause int    `json:"pause_ms,omitempty"` // logins: pause between two logins
@@ -213,6 +213,13 @@ func run(c Scenario) evid.Verdict {
 		return evid.Fail("harness", "build: %v", err)
 	}
 	defer w.Stop()
+	// the client's realm also names three password-change servers (nothing listens there: only their selection is exercised)
+	kpw := []string{"kpw1.r0.test:464", "kpw2.r0.test:464", "kpw3.r0.test:4464"}
+	for i := range w.Cfg.Realms {
+		if w.Cfg.Realms[i].Realm == c10.RealmName(0) {
+			w.Cfg.Realms[i].KPasswdServer = append([]string{}, kpw...)
+		}
+	}
 	cl := w.NewClient()
 	before := c10.DeepCopyConfig(w.Cfg)
 	var configured []string
@@ -296,6 +303,20 @@ func run(c Scenario) evid.Verdict {
 						if err != nil || n != len(configured) || len(m) != n || fmt.Sprint(got) != fmt.Sprint(configured) {
 							mu.Lock()
 							kdcProblems = append(kdcProblems, fmt.Sprintf("GetKDCs returned count=%d map=%v err=%v; configured %v", n, m, err, configured))
+							mu.Unlock()
+						}
+					}
+				case "getkpasswd":
+					for _, tcp := range []bool{false, true} {
+						n, m, err := w.Cfg.GetKpasswdServers(c10.RealmName(0), tcp)
+						var got []string
+						for i := 1; i <= n; i++ {
+							got = append(got, m[i])
+						}
+						sort.Strings(got)
+						if err != nil || n != len(kpw) || len(m) != n || fmt.Sprint(got) != fmt.Sprint(kpw) {
+							mu.Lock()
+							kdcProblems = append(kdcProblems, fmt.Sprintf("GetKpasswdServers returned count=%d map=%v err=%v; configured %v", n, m, err, kpw))
 							mu.Unlock()
 						}
 					}
@@ -437,7 +458,7 @@ func drawCase(t *rapid.T, long bool) Case {
 			n = rapid.IntRange(5, 9).Draw(t, "nopslong")
 		}
 		for i := 0; i < n; i++ {
-			kinds := []string{"ticket", "ticket", "ticket", "ticket", "cached", "login", "affirm", "getkdcs", "resolve", "diag", "print"}
+			kinds := []string{"ticket", "ticket", "ticket", "ticket", "cached", "login", "affirm", "getkdcs", "getkpasswd", "getkpasswd", "resolve", "diag", "print"}
 			if long {
 				kinds = append(kinds, "wait", "burst", "burst", "burst", "ticket")
 			}
@@ -517,7 +538,7 @@ func TestProp(t *testing.T) {
 	}
 	r.Regress()
 	r.Assume("free-running execution under the Go race detector samples schedules; it cannot show the absence of races; a race is attributed to the scenario during which the detector reported it and keyed by the innermost gokrb5 functions of its two stacks; the detector reports each racing pair once per process")
-	r.Rule("scenario: 2-16 goroutines sharing one client and one Config, each running 1-5 operations from {GetServiceTicket (SPN pool 1-4), GetCachedTicket, Login, AffirmLogin, GetKDCs, ResolveRealm, Diagnostics, Print, Destroy (at most one, last)} with start offsets 0-5 ms (plus renewal storms: 4 or 8 goroutines requesting tickets for services not asked for before, back to back for two seconds, under renewable TGTs that live about one second, so that the session is renewed in place again and again while it is read; one goroutine may log in 10-30 times instead), 1-3 configured KDCs, TGT lifetimes of 1.3-2.3 s so that background renewals overlap; oracle: no data race in gokrb5, every returned (ticket,key) pair issued together for the requested SPN, Config unchanged, GetKDCs a permutation of the configured servers, no deadlock (60 s watchdog); non-trivial = >= 2 goroutines measurably overlapped inside gokrb5 calls")
+	r.Rule("scenario: 2-16 goroutines sharing one client and one Config, each running 1-5 operations from {GetServiceTicket (SPN pool 1-4), GetCachedTicket, Login, AffirmLogin, GetKDCs, GetKpasswdServers (three configured), ResolveRealm, Diagnostics, Print, Destroy (at most one, last)} with start offsets 0-5 ms (plus renewal storms: 4 or 8 goroutines requesting tickets for services not asked for before, back to back for two seconds, under renewable TGTs that live about one second, so that the session is renewed in place again and again while it is read; one goroutine may log in 10-30 times instead; and service-ticket renewals: four goroutines ask for two services whose tickets live 1.3 s and are renewable, wait past their end and ask again, twice), 1-3 configured KDCs, TGT lifetimes of 1.3-2.3 s so that background renewals overlap; oracle: no data race in gokrb5, every returned (ticket,key) pair issued together for the requested SPN, Config unchanged, GetKDCs / GetKpasswdServers a permutation of the configured servers, no deadlock (60 s watchdog); non-trivial = >= 2 goroutines measurably overlapped inside gokrb5 calls")
 	var cases []Case
 	r.Rapid("scenario-gen", r.N(220, 6000), func(t *rapid.T) { cases = append(cases, drawCase(t, false)) })
 	// long scenarios (waits of up to a second, renewable 1.3-2.3 s TGTs so that background renewals happen while the
@@ -538,6 +559,24 @@ func TestProp(t *testing.T) {
 		nStorm = v // development aid
 	}
 	r.Rapid("storm-gen", nStorm, func(t *rapid.T) { storm[len(cases)] = true; cases = append(cases, drawStorm(t)) })
+	// service-ticket renewals: the cached service tickets live 1.3 s and are renewable; every goroutine asks for the same few
+	// services, waits past their end and asks again, so that the renewal of a cached entry (which replaces ticket and key)
+	// runs while others read it. The pair handed out by the call that renews must be one the KDC issued together.
+	for k := 0; k < r.N(2, 12); k++ {
+		s := c10.Spec{Seed: r.Seed()*9176 + uint64(k), Cred: []string{"password", "keytab"}[k%2], ETypes: []int32{[]int32{ref.AES256SHA1, ref.RC4, ref.AES128SHA2, ref.AES128SHA1}[k%4]},
+			Preauth: []string{"none", "required"}[(k/2)%2], NoAddr: true, KDCs: 1, Via: "referral", RenewLife: "10m", KDCGrace: true}
+		for i := 0; i < 40; i++ {
+			s.SvcLives = append(s.SvcLives, c10.LifeSpec{StartMs: 0, EndMs: 1300, RenewMs: 60000})
+		}
+		c := Case{Scenario: Scenario{Spec: s}}
+		for g := 0; g < 4; g++ {
+			c.Progs = append(c.Progs, []Op{{K: "ticket", SPN: g % 2}, {K: "ticket", SPN: (g + 1) % 2}, {K: "wait", SPN: 1500 + 40*g}, {K: "ticket", SPN: g % 2}, {K: "cached", SPN: g % 2}, {K: "ticket", SPN: (g + 1) % 2},
+				{K: "wait", SPN: 1450}, {K: "ticket", SPN: g % 2}, {K: "cached", SPN: (g + 1) % 2}})
+			c.StartUs = append(c.StartUs, 50*g)
+		}
+		storm[len(cases)] = true
+		cases = append(cases, c)
+	}
 	// scenarios run one at a time so that a race report can be attributed to its scenario
 	for i, c := range cases {
 		ng := len(c.Progs)
